@@ -715,7 +715,7 @@ def filter_oracle(run, case, obs):
 def wordchar_family(run):
     import re
     pts = set(range(0, 0x300)) | {0x10ffff, 0x10fffe, 0xffff, 0x10000}
-    step = 257 if not run.thorough else 17
+    step = 1021 if not run.thorough else 17
     pts |= set(range(0x300, 0x110000, step))
     w = re.compile(r'\w')
     prev = None
@@ -866,7 +866,7 @@ def main():
     else:
         wordchar_family(run)
         lap('wordchar')
-        scanner_family(run, scanner_cases(run, rng, run.n(3000, 50000)))
+        scanner_family(run, scanner_cases(run, rng, run.n(2400, 40000)))
         lap('scanner')
         cases = fixed_filter_cases() + [gen_filter_case(rng, i) for i in range(run.n(400, 4000))]
         filter_family(run, cases)
@@ -881,8 +881,12 @@ def main():
                 'through the real constructor, init and - for Filter/Util/VideoIn/VideoOut - the real Filter.run for one '
                 'loop iteration; non-trivial = a credential is present / the substitution changes the text; distinct by hash')
     run.partial = [
-        "C15_list_secrecy (comma-joined pre-normalisation strings) has no theorem: covered by the scanner oracle only; "
-        "C15_mask_uri needs pre_ok (no earlier '\\b scheme ://' in the same text)",
+        "readability ('the rest of the URI stays readable') is proved for a URI whose preceding text satisfies pre_ok (no earlier "
+        "'\\b scheme ://' in the same text: C15_mask_uri); in comma-joined pre-normalisation strings only secrecy is proved "
+        "(C15_list_secrecy: URI at the start or after a blank) - readability there and lists written without blanks are "
+        "checked by the scanner oracle only (and fail: mask:comma-list-overmask, mask:comma-list-leak)",
+        "an empty user (scheme://:password@host) and a scheme glued to a preceding word character are outside cred_ok / pre_ok: "
+        "the model shows they are not masked (mask:empty-user; glued schemes are counted, not reported)",
         'dict keys that are not str, float values and non-JSON objects in configurations are outside the model (oracle only)',
         'log records at DEBUG level are not produced (LOG_LEVEL default INFO); exception messages that are raised out of '
         'the constructor and never logged (they reach stderr as a traceback) are not counted as log lines',
